@@ -124,6 +124,89 @@ Definition nts_natural_endpoints {T} (ltb : T -> T -> bool) (dc_of rack_of : Z -
            (datacenters : list (name * Z)) (ring : list (T * Z)) (t : T) : list Z :=
   nts_endpoints dc_of rack_of datacenters (map snd ring) (ring_walk ltb ring t).
 
+(* ---- NetworkTopologyStrategy as formulated since Cassandra 3.x (CASSANDRA-7032: DatacenterEndpoints with
+   rfLeft and acceptableRackRepeats).  It yields the same replica SET as the formulation above; the order of
+   its list can differ (an endpoint of a rack already used is taken at once while the rack budget lasts,
+   instead of after the last unused rack).  C10/Corr.v evaluates both on every generated ring and compares them
+   as sets; the equality is not proved here. ------------------------------------------------------------ *)
+Section Placement40.
+  Variable dc_of rack_of : Z -> name.
+  Variable datacenters : list (name * Z).
+  Variable endpoints : list Z.
+
+  Record dc_state := mkD { d_rf_left : Z; d_repeats : Z }.       (* DatacenterEndpoints.rfLeft, acceptableRackRepeats *)
+  Record nts40 := mkT {
+    t_replicas : list Z;                                          (* the shared LinkedHashSet replicas *)
+    t_racks : list (name * name);                                 (* the shared Set<Pair<dc, rack>> seenRacks *)
+    t_dcs : list (name * dc_state);                               (* Map<String, DatacenterEndpoints> dcs *)
+    t_to_fill : Z }.                                              (* dcsToFill *)
+
+  Definition loc_eqb (a b : name * name) : bool := name_eqb (fst a) (fst b) && name_eqb (snd a) (snd b).
+
+  Fixpoint dlookup (m : list (name * dc_state)) (k : name) : option dc_state :=
+    match m with [] => None | (k', v) :: m' => if name_eqb k' k then Some v else dlookup m' k end.
+  Fixpoint dset (m : list (name * dc_state)) (k : name) (v : dc_state) : list (name * dc_state) :=
+    match m with
+    | [] => [(k, v)]
+    | (k', v') :: m' => if name_eqb k' k then (k', v) :: m' else (k', v') :: dset m' k v
+    end.
+
+  (* the constructor loop: a DatacenterEndpoints for every datacenter with rf > 0 and at least one node;
+     rfLeft = min(rf, nodes), acceptableRackRepeats = rf - racks *)
+  Definition start40 : nts40 :=
+    let ds := flat_map (fun e =>
+                let nodes := Z.of_nat (length (dc_endpoints dc_of endpoints (fst e))) in
+                if (snd e <=? 0) || (nodes <=? 0) then []
+                else [(fst e, mkD (Z.min (snd e) nodes)
+                                  (snd e - Z.of_nat (length (dc_racks dc_of rack_of endpoints (fst e)))))]) datacenters in
+    mkT [] [] ds (Z.of_nat (length ds)).
+
+  (* DatacenterEndpoints.addEndpointAndCheckIfDone, and the --dcsToFill of the caller *)
+  Definition visit40 (s : nts40) (ep : Z) : nts40 :=
+    let dc := dc_of ep in
+    match dlookup (t_dcs s) dc with
+    | None => s
+    | Some d =>
+        if d_rf_left d =? 0 then s                                                       (* done() *)
+        else
+          let loc := (dc, rack_of ep) in
+          if negb (existsb (loc_eqb loc) (t_racks s)) then                               (* racks.add(location): new rack *)
+            let d' := mkD (d_rf_left d - 1) (d_repeats d) in
+            mkT (lhs_add ep (t_replicas s)) (t_racks s ++ [loc]) (dset (t_dcs s) dc d')
+                (if d_rf_left d' =? 0 then t_to_fill s - 1 else t_to_fill s)
+          else if d_repeats d <=? 0 then s                                               (* no more rack repeats *)
+          else if lhs_has ep (t_replicas s) then s                                       (* cannot repeat a node *)
+          else
+            let d' := mkD (d_rf_left d - 1) (d_repeats d - 1) in
+            mkT (t_replicas s ++ [ep]) (t_racks s) (dset (t_dcs s) dc d')
+                (if d_rf_left d' =? 0 then t_to_fill s - 1 else t_to_fill s)
+    end.
+
+  (* while (dcsToFill > 0 && tokenIter.hasNext()) *)
+  Fixpoint walk40 (walk : list Z) (s : nts40) : nts40 :=
+    match walk with
+    | [] => s
+    | ep :: rest => if 0 <? t_to_fill s then walk40 rest (visit40 s ep) else s
+    end.
+
+  Definition nts40_endpoints (walk : list Z) : list Z := t_replicas (walk40 walk start40).
+End Placement40.
+
+Definition nts40_natural_endpoints {T} (ltb : T -> T -> bool) (dc_of rack_of : Z -> name)
+           (datacenters : list (name * Z)) (ring : list (T * Z)) (t : T) : list Z :=
+  nts40_endpoints dc_of rack_of datacenters (map snd ring) (ring_walk ltb ring t).
+
+(* ---- tokens as Cassandra writes them in system.local / system.peers ------------------------------- *)
+(* Murmur3Partitioner: Long.toString, RandomPartitioner: BigInteger.toString -- an optional sign and decimal
+   digits; ByteOrderedPartitioner tokens are compared as unsigned byte strings *)
+Definition is_dec_digit (c : Z) : Prop := 48 <= c <= 57.
+Definition dec_value (ds : list Z) : Z := fold_left (fun acc c => acc * 10 + (c - 48)) ds 0.
+(* a long that does not fit: the driver keeps the nearest long (Cassandra never prints such a token) *)
+Definition clamp64 (v : Z) : Z := Z.max (- 2 ^ 63) (Z.min (2 ^ 63 - 1) v).
+(* unsigned lexicographic order: a is a proper prefix of b, or they first differ at a smaller byte of a *)
+Definition bytes_lt (a b : list Z) : Prop :=
+  (exists y t, b = a ++ y :: t) \/ (exists p x y s t, a = p ++ x :: s /\ b = p ++ y :: t /\ x < y).
+
 (* ---- hand-worked examples (tests of the transcription, not theorems) ---------------------------- *)
 Module SpecExamples.
   Definition n (z : Z) : name := [z].
@@ -153,5 +236,15 @@ Module SpecExamples.
   (* with several tokens per node a node is still listed once *)
   Example nts_vnodes :
     nts_natural_endpoints Z.ltb (fun _ => n 1) (fun _ => n 1) [(n 1, 2)] [(0, 1); (10, 1); (20, 2); (30, 2)] 0 = [1; 2].
+  Proof. reflexivity. Qed.
+  (* the 3.x / 4.x formulation on the same inputs: the same sets; nts_rf3's order differs *)
+  Example nts40_5 : nts40_natural_endpoints Z.ltb dc rack [(n 1, 2); (n 2, 2)] ring6 5 = [1; 4; 5; 3].
+  Proof. reflexivity. Qed.
+  Example nts40_rf3 : nts40_natural_endpoints Z.ltb dc rack [(n 1, 3)] ring6 5 = [1; 2; 3].
+  Proof. reflexivity. Qed.
+  Example nts40_rf_big : nts40_natural_endpoints Z.ltb dc rack [(n 1, 7); (n 9, 2)] ring6 25 = [2; 3; 1].
+  Proof. reflexivity. Qed.
+  Example nts40_vnodes :
+    nts40_natural_endpoints Z.ltb (fun _ => n 1) (fun _ => n 1) [(n 1, 2)] [(0, 1); (10, 1); (20, 2); (30, 2)] 0 = [1; 2].
   Proof. reflexivity. Qed.
 End SpecExamples.
